@@ -13,6 +13,7 @@ mod gen_prog;
 mod gen_text;
 mod ops_codec;
 mod ops_doc;
+mod ops_inc;
 mod ops_lex;
 mod ops_net;
 mod ops_parse;
@@ -23,7 +24,7 @@ use std::io::{BufRead, Write};
 use std::panic;
 use std::sync::Mutex;
 
-static LAST_PANIC: Mutex<Option<String>> = Mutex::new(None);
+pub static LAST_PANIC: Mutex<Option<String>> = Mutex::new(None);
 
 fn run_line(line: &str) -> String {
     let parts: Vec<&str> = line.split(' ').collect();
@@ -32,7 +33,7 @@ fn run_line(line: &str) -> String {
     }
     let (op, args) = (parts[0], &parts[1..]);
     let res = panic::catch_unwind(|| {
-        ops_lex::run(op, args).or_else(|| ops_doc::run(op, args)).or_else(|| ops_codec::run(op, args)).or_else(|| ops_net::run(op, args)).or_else(|| ops_parse::run(op, args))
+        ops_lex::run(op, args).or_else(|| ops_doc::run(op, args)).or_else(|| ops_codec::run(op, args)).or_else(|| ops_net::run(op, args)).or_else(|| ops_parse::run(op, args)).or_else(|| ops_inc::run(op, args))
     });
     match res {
         Ok(Some(s)) => s,
@@ -67,6 +68,8 @@ fn main() {
             match prop.as_str() {
                 "C06" => ops_lex::gen_c06(&mut rng, if thorough { 40000 } else { 3000 }, &mut out),
                 "C07" => ops_lex::gen_c07(&mut rng, if thorough { 60000 } else { 4000 }, thorough, &mut out),
+                "C01" => ops_inc::gen_c01(&mut rng, if thorough { 30000 } else { 2500 }, &mut out),
+                "C02" => ops_inc::gen_c02(&mut rng, if thorough { 30000 } else { 2500 }, &mut out),
                 "C04" => ops_parse::gen_c04(&mut rng, if thorough { 6000 } else { 500 }, &mut out),
                 "C05" => ops_parse::gen_c05(&mut rng, if thorough { 20000 } else { 1500 }, &mut out),
                 "NEW" => ops_parse::gen_new(&mut rng, if thorough { 20000 } else { 2000 }, &mut out),
